@@ -211,6 +211,13 @@ def auto_accept(body, kind, bb):
                                     return 'index masked with %d into an array of %d' % (m_, n_)
                             break
         return None
+    if kind == 'index' and len(t.get('arg_tys', [])) > 1 and ('RangeFrom<' in t['arg_tys'][1] or 'RangeTo<' in t['arg_tys'][1]):
+        # `&slice[n..]` / `&slice[..n]` after `n > len => return Err` (the explicit spelling of `.get(n..)`)
+        no = origin(body, t['args'][1])
+        na = {a for a in no.atoms if a[0] != 'agg'}
+        for g in cmp_guards(body, bb):
+            if g['op'] == 'Le' and na and g['l'].atoms == na and 'len' in g['r'].flags and not g['l'].has_arith():
+                return 'range bound dominated by n <= len'
     if kind == 'split_at':
         no = origin(body, t['args'][1])
         for g in cmp_guards(body, bb):
@@ -472,7 +479,8 @@ def seqcap_rule(ctx):
     for bb, t in hm.calls():
         if call_matches(t, ['::saturating_add']):
             a0, a1 = origin(hm, t['args'][0]), origin(hm, t['args'][1])
-            if len(a0.fields) == 1 and a0.params() == {1} and not a0.call_names() and any('read_block_len' in cname(c) for c in a1.calls) and 'nz_get' in a1.flags:
+            # (flow-insensitive provenance folds the stored sum back into the field once a helper is spliced in)
+            if len(a0.fields) == 1 and a0.params() == {1} and all('saturating_add' in n_ for n_ in a0.call_names()) and any('read_block_len' in cname(c) for c in a1.calls) and 'nz_get' in a1.flags:
                 acc = True
                 acc_field = list(a0.fields)[0]
     ctx.ob('SEQCAP', 'has_more/cumulative-saturating', sat and acc, short_loc(hm.span),
